@@ -31,6 +31,7 @@ ValEq(a, b) ==
   ELSE CASE a.c = "none" -> TRUE
          [] a.c = "prim" -> a.p = b.p
          [] a.c \in {"list", "option"} -> ValEq(a.e, b.e)
+         [] a.c = "flist" -> a.n = b.n /\ ValEq(a.e, b.e)
          [] a.c = "result" -> ValEq(a.ok, b.ok) /\ ValEq(a.err, b.err)
          [] a.c = "tuple" -> Len(a.es) = Len(b.es) /\ \A i \in DOMAIN a.es : ValEq(a.es[i], b.es[i])
          [] a.c = "record" -> Len(a.fs) = Len(b.fs)
@@ -49,6 +50,7 @@ LimitsMatch(ai, am, bi, bm) ==
 ExternSub(a, b) ==
   IF a.x # b.x THEN FALSE
   ELSE CASE a.x = "cfunc" -> a.sig = b.sig
+         [] a.x = "tag" -> a.sig = b.sig
          [] a.x = "mem" -> a.shared = b.shared /\ a.m64 = b.m64 /\ LimitsMatch(a.init, a.max, b.init, b.max)
          [] a.x = "table" -> a.elem = b.elem /\ LimitsMatch(a.init, a.max, b.init, b.max)
          [] a.x = "global" -> a.vt = b.vt /\ a.mut = b.mut
